@@ -1,6 +1,6 @@
 (** Model of the child entitlement checks.
     Rust: src/server/ca/certauth.rs:1110-1133 (process_child_add),
-    :1225-1261 (process_child_update_resources), :371-376, 444-448 (events).
+    :1225-1268 (process_child_update_resources), :371-376, 444-448 (events).
     Resource sets are lists of merged blocks per kind (ASN, IPv4, IPv6);
     [rs_contains] is ResourceSet::contains (every block of the requested set lies
     inside one block of the holder). No proofs in this file. *)
@@ -31,7 +31,17 @@ Definition child_add (held : resources) (m : children) (c : N) (r : resources) :
   else if has N.eqb m c then Err CDuplicate
   else Ok [CEvAdded c r].
 
+(** certauth.rs:1225-1268; the empty-set check comes first (repaired tree 1b4277e7, finding F05c). *)
 Definition child_update (held : resources) (m : children) (c : N) (r : resources) : result (list cevent) cerr :=
+  if rs_is_empty r then Err CMustHaveResources
+  else if negb (rs_contains held r) then Err CExtraResources
+  else match cget m c with
+       | None => Err CUnknown
+       | Some cur => if rs_eqb r cur then Ok [] else Ok [CEvUpdated c r]
+       end.
+
+(** The originally pinned tree had no empty-set check in the update. *)
+Definition child_update_pinned (held : resources) (m : children) (c : N) (r : resources) : result (list cevent) cerr :=
   if negb (rs_contains held r) then Err CExtraResources
   else match cget m c with
        | None => Err CUnknown
